@@ -42,6 +42,10 @@ type (
 		X Expr
 		T string
 	}
+	EForall struct {
+		Var, Type string
+		Body      Expr
+	}
 )
 
 // ---------- clauses ----------
@@ -787,7 +791,23 @@ func (p *exprParser) typeName() (string, error) {
 
 func (p *exprParser) unary() (Expr, error) {
 	t := p.peek()
-	if t.kind == "op" && (t.s == "!" || t.s == "-") {
+	if t.kind == "id" && t.s == "forall" && p.ts[p.pos+1].kind == "id" {
+		p.next()
+		v := p.next().s
+		tn, err := p.typeName()
+		if err != nil {
+			return nil, err
+		}
+		if p.next().s != ":" || p.next().s != ":" {
+			return nil, fmt.Errorf("expected '::' after forall binder")
+		}
+		body, err := p.parse(0)
+		if err != nil {
+			return nil, err
+		}
+		return &EForall{Var: v, Type: tn, Body: body}, nil
+	}
+	if t.kind == "op" && (t.s == "!" || t.s == "-" || t.s == "*") {
 		p.next()
 		x, err := p.unary()
 		if err != nil {
@@ -937,6 +957,8 @@ func exprString(e Expr) string {
 		return e.F + "(" + strings.Join(as, ", ") + ")"
 	case *EIs:
 		return exprString(e.X) + " is " + e.T
+	case *EForall:
+		return "forall " + e.Var + " " + e.Type + " :: " + exprString(e.Body)
 	}
 	return "?"
 }
